@@ -2364,7 +2364,8 @@ class Exec:
                 return [(st, VTuple(self.iter_items(A[0], st)))]
             if name in ('set', 'frozenset'):
                 if A and isinstance(A[0], VSet):
-                    return [(st, A[0])]
+                    cur = A[0].view(st)          # set(s) is a NEW set with the members s has now
+                    return [(st, VSet(list(cur.items), list(cur.conds) if cur.conds else None))]
                 return [(st, VSet(self.iter_items(A[0], st) if A else []))]
             if name.split('.')[0] in EXTERNAL_ROOTS:
                 hk = self.hooks.get(('ext', name))
